@@ -131,6 +131,22 @@ theorem zip_positional_when_sequential (a : List (Elem α)) (b : List (Elem β))
   · rw [run_append, run_far _ hp]; simp
   · rw [stateAfter_append]; simp [stateAfter, hstep]
 
+/-- **C09 (zip over arrival sequences, through the real binary start).** `arr` is the sequence in
+    which the elements of the two sides reach the zip block — any number of replicas per side, any
+    interleaving, data and watermarks (one iteration in progress: no replica has ended yet). `Front`
+    is the binary start (`process_side` + `Start::next` incl. the watermark frontier over all
+    `nL + nR` replicas). The pairs `Zip` emits are exactly `List.zip` of the two sides' data in
+    arrival order. -/
+theorem zip_pairs_arrivals {γ : Type} (nL nR : Nat) (hn : nL + nR ≠ 0) (arr : List (Arrival γ))
+    (harr : ∀ p ∈ arr, p.2.2.isFar = false ∧ p.2.2.isTerm = false)
+    (hp : (stateAfter State.init (Front.run (Front.init nL nR) arr)).panicked = false) :
+    (dataOf (run State.init (Front.run (Front.init nL nR) arr))).map some =
+      (List.zip (sideData true arr) (sideData false arr)).map pairU := by
+  have hs := front_run_sides arr (Front.init nL nR) (by simpa [Front.init, Noir.Start.init] using hn) harr
+  have h := zip_pairs _ hs.1 hp
+  rw [hs.2.1, hs.2.2] at h
+  exact h
+
 /-- **C09 (zip resets at `FlushAndRestart`).** Both stashes are cleared: unmatched elements of the
     longer side are forgotten, nothing is carried over … -/
 theorem zip_resets (s : State α β) (hs : s.panicked = false) :
